@@ -267,6 +267,16 @@ Definition ascii_only (s : list Z) : bool := forallb (fun c => c <? 128) s.
 Definition py_lower (s:pyval) : res := match s with VStr a => if ascii_only a then Normal (VStr (map (fun c => if (65 <=? c) && (c <=? 90) then c + 32 else c) a)) else Exc Unsupported | _ => Exc AttributeError end.
 Definition py_upper (s:pyval) : res := match s with VStr a => if ascii_only a then Normal (VStr (map (fun c => if (97 <=? c) && (c <=? 122) then c - 32 else c) a)) else Exc Unsupported | _ => Exc AttributeError end.
 
+(* bisect on a sorted list of integers: index of the first element greater than (bisect_right) / not less than (bisect_left) x *)
+Fixpoint bisect_r (l : list pyval) (x : Z) : option nat :=
+  match l with [] => Some O | VInt b :: r => if x <? b then Some O else option_map S (bisect_r r x) | _ => None end.
+Fixpoint bisect_l (l : list pyval) (x : Z) : option nat :=
+  match l with [] => Some O | VInt b :: r => if x <=? b then Some O else option_map S (bisect_l r x) | _ => None end.
+Definition py_bisect_right (l x:pyval) : res :=
+  match l, x with VList a, VInt z | VTuple a, VInt z => match bisect_r a z with Some k => Normal (VInt (Z.of_nat k)) | None => Exc TypeError end | _, _ => Exc TypeError end.
+Definition py_bisect_left (l x:pyval) : res :=
+  match l, x with VList a, VInt z | VTuple a, VInt z => match bisect_l a z with Some k => Normal (VInt (Z.of_nat k)) | None => Exc TypeError end | _, _ => Exc TypeError end.
+
 (* ordering comparisons: integers only (strings etc. are outside the translated subset: TypeError in the model means "not modelled") *)
 Definition py_lt (a b:pyval) : res := match a, b with VInt x, VInt y => Normal (VBool (x <? y)) | _, _ => Exc TypeError end.
 Definition py_le (a b:pyval) : res := match a, b with VInt x, VInt y => Normal (VBool (x <=? y)) | _, _ => Exc TypeError end.
